@@ -19,6 +19,7 @@ import os
 import shutil
 import subprocess
 import sys
+import threading
 import time
 import traceback
 from concurrent.futures import ThreadPoolExecutor
@@ -75,18 +76,44 @@ def run_shard(pid, tier, seed, shard, nshards, budget_s, out, only_case=None):
     # generous in-process watchdog: dumps stacks (observability only), the parent's timeout decides
     faulthandler.dump_traceback_later(budget_s * 3 + 100, exit=False)
     crashed = None
+
+    def _save(d):
+        if out:
+            tmp = out + f".tmp{threading.get_ident()}"
+            with open(tmp, "w") as f:
+                f.write(dumps(d))
+            os.replace(tmp, out)
+
+    # Hard deadline (a call into the code under test that never returns, e.g. a LAPACK routine inside quimb that no Python-level signal
+    # can interrupt): well after the soft budget, but before the parent's kill, a daemon thread saves everything observed so far, records
+    # the unfinished case as an inconclusive case and ends the process.  The observations of the shard are kept; the case that hung is
+    # neither held nor violated.
+    done = threading.Event()
+
+    def _deadline():
+        if done.wait(budget_s * 2 + 150):
+            return
+        try:
+            ctx.inconclusive_case(f"shard {shard}: a call did not return by the hard deadline ({budget_s * 2 + 150:.0f} s); case index {getattr(ctx, 'case_index', None)}")
+            ctx.count("hard_deadline_stops")
+            d = ctx.dump()
+            d["crashed"] = None
+            d["hard_deadline_stop"] = True
+            _save(d)
+        finally:
+            os._exit(0)
+
+    if out:
+        threading.Thread(target=_deadline, daemon=True).start()
     try:
         mod.run(ctx)
     except BaseException as e:  # noqa: BLE001 - harness crash ⇒ inconclusive shard, reported
         crashed = f"{type(e).__name__}: {e}\n" + traceback.format_exc()[-3000:]
+    done.set()
     faulthandler.cancel_dump_traceback_later()
     d = ctx.dump()
     d["crashed"] = crashed
-    if out:
-        tmp = out + ".tmp"
-        with open(tmp, "w") as f:
-            f.write(dumps(d))
-        os.replace(tmp, out)
+    _save(d)
     return d
 
 
